@@ -43,6 +43,7 @@ def wl_history(ctx, rng, case):
         pushes = 0
         dup_adds = forced = reloads = 0
         for step in range(rng.randint(5, 70)):
+            bl.noise_reads(ctx, rng, f, keys)
             r = rng.random()
             if r < 0.78:
                 # aim at the boundary: re-add known keys often, force sometimes
@@ -236,6 +237,43 @@ def wl_geometry(ctx, rng, case):
     case.nontrivial = True
 
 
+def wl_est_sweep(ctx, rng, case):
+    """EVERY est_elements from 1 upwards (one case each, not a grid): distinct keys across the est-th, est+1-th and 2*est+1-th effective
+    insertion, closed form after every add, per-filter counts from the stream at the boundaries"""
+    import probables as P
+
+    est = case.index + 1
+    rate = rng.choice([0.3, 0.1, 0.05, 0.01])
+    case.desc = {"est": est, "rate": rate, "kind": "every est_elements"}
+    if refimpl.bloom_sizing_simple(est, rate) is None:
+        return
+    f = P.ExpandingBloomFilter(est_elements=est, false_positive_rate=rate)
+    forced = case.index % 2 == 1
+    effective = calls = i = 0
+    target = 2 * est + 2
+    while effective < target and i < 3 * target + 50:
+        key = f"sweep-{est}-{i}"
+        i += 1
+        present = (not forced) and f.check(key)
+        f.add(key, force=True) if forced else f.add(key)
+        calls += 1
+        if not present:
+            effective += 1
+        want = max(0, math.ceil(effective / est) - 1)
+        ctx.counters["oracle_evaluations"] += 1
+        if f.expansions != want:
+            ctx.fail(f"expansions is not max(0, ceil(I/est)-1) after I={effective} effective insertions (est_elements={est}, rate={rate})", got=f.expansions, want=want)
+        if effective in (est, est + 1, 2 * est, 2 * est + 1) and not present:
+            st, counts, _ = stream_state(f)
+            ctx.count("stream_parses")
+            ctx.check(all(c <= est for c in counts), f"a sub-filter received more than est_elements insertions (est={est}, rate={rate})", got=counts)
+            ctx.check(sum(counts) == effective and f.elements_added == calls, "insertion counts inconsistent", counts=counts, effective=effective, calls=calls)
+    ctx.count("closed_form_checks", calls)
+    ctx.count("est_sweep_cases")
+    ctx.maximum("est_sweep_max_est_elements", est)
+    case.nontrivial = True
+
+
 PROP = Prop(
     "C09",
     "exploration",
@@ -248,6 +286,7 @@ PROP = Prop(
         Workload("boundary", wl_boundary, quick=144, thorough=144),
         Workload("geometry", wl_geometry, quick=len(GEO_EST) * len(GEO_RATE), thorough=len(GEO_EST) * len(GEO_RATE) + 3000),
         Workload("history", wl_history, quick=1200, thorough=300000),
+        Workload("est_sweep", wl_est_sweep, quick=400, thorough=2500),
     ],
     assumptions=["an add is 'effective' iff force or the filter's own check() was false just before the call (decided by the harness before the call)",
                  "per-filter counts are read from the exported stream with an independent parser"],
